@@ -107,6 +107,7 @@ type chainT struct {
 	tokens  [][]byte
 	blockNo uint64
 	txID    uint64
+	freeBridgers []sdk.AccAddress // bridger accounts oracles of this chain held earlier
 }
 
 func (c *chainT) addrStr(b []byte) string { return types.ExternalAddrToStr(c.name, b) }
@@ -330,6 +331,89 @@ func loadSolPrefix() map[string][]byte {
 	return res
 }
 
+type solPackedT struct {
+	Kind string `json:"kind"`
+	Lit  []byte `json:"lit"`
+	Name string `json:"name"`
+	Ty   string `json:"ty"`
+}
+
+// solVerifyT: verifySig of one contract file as the translator read it (facts C12.solVerifySigs)
+type solVerifyT struct {
+	File   string        `json:"file"`
+	PackFn string        `json:"packFn"`
+	Packed []solPackedT  `json:"packed"`
+	Params [][2]string   `json:"params"`
+	EcArgs []string      `json:"ecArgs"`
+	RetLhs string        `json:"retLhs"`
+	RetOp  string        `json:"retOp"`
+}
+
+func loadSolVerify() []solVerifyT {
+	var res []solVerifyT
+	bz, err := os.ReadFile(os.Getenv("VERIF_FACTS"))
+	if err != nil {
+		return res
+	}
+	var facts map[string]json.RawMessage
+	if json.Unmarshal(bz, &facts) != nil {
+		return res
+	}
+	_ = json.Unmarshal(facts["C12.solVerifySigs"], &res)
+	return res
+}
+
+// message: the bytes verifySig hashes for _theHash = hash, following the encoding function of the source: abi.encodePacked
+// concatenates (string literal: its bytes; bytes32: 32 bytes); abi.encode is the head/tail ABI encoding of (string, bytes32)
+func (v solVerifyT) message(hash []byte) ([]byte, error) {
+	switch v.PackFn {
+	case "abi.encodePacked":
+		var out []byte
+		for _, p := range v.Packed {
+			if p.Kind == "lit" {
+				out = append(out, p.Lit...)
+			} else if p.Ty == "bytes32" && len(v.Params) > 1 && p.Name == v.Params[1][1] {
+				out = append(out, hash...)
+			} else {
+				return nil, fmt.Errorf("argument %s of abi.encodePacked is not the hash parameter", p.Name)
+			}
+		}
+		return out, nil
+	case "abi.encode":
+		var args abi.Arguments
+		var vals []any
+		for _, p := range v.Packed {
+			if p.Kind == "lit" {
+				t, _ := abi.NewType("string", "", nil)
+				args, vals = append(args, abi.Argument{Type: t}), append(vals, string(p.Lit))
+			} else if p.Ty == "bytes32" && len(v.Params) > 1 && p.Name == v.Params[1][1] {
+				t, _ := abi.NewType("bytes32", "", nil)
+				var w [32]byte
+				copy(w[:], hash)
+				args, vals = append(args, abi.Argument{Type: t}), append(vals, w)
+			} else {
+				return nil, fmt.Errorf("argument %s of abi.encode is not the hash parameter", p.Name)
+			}
+		}
+		return args.Pack(vals...)
+	}
+	return nil, fmt.Errorf("verifySig hashes through %q", v.PackFn)
+}
+
+// verify: verifySig(signer, hash, v, r, s) with go-ethereum's ecrecover precompile; the source must hand ecrecover the hash
+// variable and its own v, r, s parameters and compare the result with its first parameter
+func (v solVerifyT) verify(hash, sig []byte, signer common.Address) (bool, error) {
+	if len(v.Params) != 5 || len(v.EcArgs) != 4 || v.EcArgs[1] != v.Params[2][1] || v.EcArgs[2] != v.Params[3][1] || v.EcArgs[3] != v.Params[4][1] ||
+		v.RetLhs != v.Params[0][1] || v.RetOp != "==" {
+		return false, fmt.Errorf("verifySig of %s no longer has the shape `return _signer == ecrecover(digest, _v, _r, _s)`", v.File)
+	}
+	msg, err := v.message(hash)
+	if err != nil {
+		return false, err
+	}
+	return contractVerifyMsg(crypto.Keccak256(msg), sig, signer), nil
+}
+
 func canonName(s string) string {
 	s = strings.TrimPrefix(s, "input.")
 	s = strings.TrimLeft(s, "_")
@@ -429,6 +513,10 @@ func (h *hCtx) contractDigest(c *chainT, kind string, sol map[string]any) []byte
 // contractVerifySig evaluates FxBridgeLogic.verifySig with go-ethereum's ecrecover precompile: input = digest32 ++ v(32) ++
 // r ++ s, v must be 27 or 28 (anything else makes the precompile return nothing = address(0)).
 func contractVerifySig(prefix, hash, sig []byte, signer common.Address) bool {
+	return contractVerifyMsg(crypto.Keccak256(append(append([]byte{}, prefix...), hash...)), sig, signer)
+}
+
+func contractVerifyMsg(msg, sig []byte, signer common.Address) bool {
 	if len(sig) < 65 {
 		return false
 	}
@@ -436,7 +524,6 @@ func contractVerifySig(prefix, hash, sig []byte, signer common.Address) bool {
 	if v < 27 {
 		v += 27 // the relayer submits v in the contract's convention
 	}
-	msg := crypto.Keccak256(append(append([]byte{}, prefix...), hash...))
 	in := make([]byte, 128)
 	copy(in[0:32], msg)
 	in[63] = v
@@ -500,6 +587,7 @@ type hCtx struct {
 	big_  int
 	sites []solSiteT
 	solPrefix map[string][]byte // per Solidity file: first argument of abi.encodePacked(...) in verifySig
+	solVerify []solVerifyT
 }
 
 func allSafe(xs ...uint64) string {
@@ -954,6 +1042,19 @@ func (h *hCtx) verifyEntry(c *chainT, e entryT, class string) {
 			h.out.Count("contract-verifySig:" + file)
 			if !contractVerifySig(pfx, digest, sig, common.HexToAddress(rec.ExternalAddress)) {
 				h.out.Violate(fmt.Sprintf("stored %s confirm does not pass %s:verifySig (ecrecover precompile over keccak256(abi.encodePacked(prefix, digest)) with v,r,s split off the stored signature) for the oracle's registered external address: the accepted confirmation is not usable on the bridge contract (after %s)", kind, file, class))
+			}
+		}
+	}
+	if !c.tron {
+		// … and verifySig of EVERY contract variant evaluated as its source spells it (encoding function, argument list,
+		// ecrecover arguments, comparison: facts C12.solVerifySigs)
+		for _, v := range h.solVerify {
+			h.out.Count("contract-verifySig-as-written:" + v.File)
+			ok, err := v.verify(digest, sig, common.HexToAddress(rec.ExternalAddress))
+			if err != nil {
+				h.out.Violate(fmt.Sprintf("stored %s confirm cannot be checked against %s:verifySig as written: %v (after %s)", kind, v.File, err, class))
+			} else if !ok {
+				h.out.Violate(fmt.Sprintf("stored %s confirm does not pass %s:verifySig evaluated as its source spells it (%s of the literal and the digest, ecrecover precompile, v,r,s split off the stored signature) for the oracle's registered external address: the accepted confirmation is not usable on that bridge contract (after %s)", kind, v.File, v.PackFn, class))
 			}
 		}
 	}
@@ -1605,6 +1706,12 @@ func (h *hCtx) editBridger(c *chainT) {
 		return
 	}
 	nb := helpers.GenAccAddress()
+	if len(c.freeBridgers) > 0 && h.rng.Intn(2) == 0 {
+		// a bridger account another oracle of this chain held earlier (free again): confirmations stored under that oracle
+		// still carry it
+		nb = c.freeBridgers[h.rng.Intn(len(c.freeBridgers))]
+		h.out.Count("edit-bridger:reuse-freed")
+	}
 	msg := &types.MsgEditBridger{ChainName: c.name, OracleAddress: or.addr.String(), BridgerAddress: nb.String()}
 	cctx, write := h.ctx.CacheContext()
 	// MsgEditBridger.ValidateBasic parses bridger_address as a VALIDATOR address while the handler parses it as an
@@ -1623,8 +1730,143 @@ func (h *hCtx) editBridger(c *chainT) {
 		return
 	}
 	write()
+	for i, fb := range c.freeBridgers {
+		if fb.Equals(nb) {
+			c.freeBridgers = append(c.freeBridgers[:i], c.freeBridgers[i+1:]...)
+			break
+		}
+	}
+	if old, err := sdk.AccAddressFromBech32(rec.BridgerAddress); err == nil {
+		c.freeBridgers = append(c.freeBridgers, old)
+	}
 	or.bridger = nb
 	h.out.Emit(fmt.Sprintf("oracle %s %d %s %s", c.name, or.id, nb.String(), rec.ExternalAddress), "ok")
+}
+
+// genesisRoundTrip: ExportGenesis of the chain, the module store wiped, InitGenesis of what was exported — in a throw-away
+// context.  Monitor: the import must not file a confirmation under an oracle / object that had none (a confirmation the
+// oracle never submitted), nor change one; confirmations that do not survive are counted.
+func (h *hCtx) genesisRoundTrip(c *chainT) {
+	before := h.scanAll(c)
+	cctx, _ := h.ctx.CacheContext()
+	res := hx.Try(func() error {
+		state := crosschainkeeper.ExportGenesis(cctx, c.k)
+		st := cctx.KVStore(h.s.App.GetKey(c.name))
+		var keys [][]byte
+		it := st.Iterator(nil, nil)
+		for ; it.Valid(); it.Next() {
+			keys = append(keys, append([]byte{}, it.Key()...))
+		}
+		it.Close()
+		for _, k := range keys {
+			st.Delete(k)
+		}
+		crosschainkeeper.InitGenesis(cctx, c.k, state)
+		return nil
+	})
+	h.out.Count("genesis-round-trip:" + strings.SplitN(res, ":", 2)[0])
+	if res != "ok" {
+		h.out.Stats.Extra["genesis_round_trip_error"] = res
+		return
+	}
+	saved := h.ctx
+	h.ctx = cctx
+	after := h.scanAll(c)
+	h.ctx = saved
+	bm := entriesByKey(before)
+	kept := 0
+	for _, e := range after {
+		b, ok := bm[e.storeKey]
+		switch {
+		case !ok:
+			h.out.Violate(fmt.Sprintf("after a genesis export / import round trip a %s confirmation is stored for an oracle and object that had none: a confirmation that oracle never submitted (the import files confirmations by bridger address)", e.key.kind))
+		case !bytes.Equal(b.raw, e.raw):
+			h.out.Violate(fmt.Sprintf("a genesis export / import round trip changed a stored %s confirmation", e.key.kind))
+		default:
+			kept++
+		}
+	}
+	h.out.Stats.Extra["genesis_round_trip_confirms_kept_of"] = fmt.Sprintf("%d/%d", kept, len(before))
+	for _, b := range before {
+		found := false
+		for _, e := range after {
+			if e.storeKey == b.storeKey {
+				found = true
+			}
+		}
+		if !found {
+			h.out.Count("genesis-round-trip:lost:" + b.key.kind)
+		}
+	}
+}
+
+// genesisBridgerReuse: a deterministic history through the real handlers only — oracle A (bridger X) confirms an oracle set;
+// A goes offline, leaves the proposal oracles and unbonds (real MsgUnbondedOracle: record and indexes deleted, its
+// confirmations stay); a new oracle B bonds with the now free bridger account X (real MsgBondedOracle); the chain is exported
+// and imported.  Monitor as in genesisRoundTrip: no confirmation may appear under an oracle that never submitted one.
+func (h *hCtx) genesisBridgerReuse() {
+	s := h.s
+	k := s.App.EthKeeper
+	name := "eth"
+	cctx, _ := s.Ctx.CacheContext()
+	h.ctx = cctx
+	c := &chainT{name: name, k: k, ledger: map[string]*objT{}, accRec: map[string]types.Oracle{}, gid: k.GetGravityID(cctx)}
+	keyA, _ := crypto.GenerateKey()
+	a := &oracleT{id: 0, addr: helpers.GenAccAddress(), bridger: helpers.GenAccAddress(), key: keyA}
+	a.ext = c.addrStr(crypto.PubkeyToAddress(keyA.PublicKey).Bytes())
+	threshold := k.GetOracleDelegateThreshold(cctx)
+	bond := func(o *oracleT) string {
+		s.MintToken(o.addr, threshold)
+		msg := &types.MsgBondedOracle{OracleAddress: o.addr.String(), BridgerAddress: o.bridger.String(), ExternalAddress: o.ext,
+			ValidatorAddress: s.ValAddr[0].String(), DelegateAmount: threshold, ChainName: name}
+		return hx.Try(func() error {
+			if err := msg.ValidateBasic(); err != nil {
+				return err
+			}
+			_, err := s.App.MsgServiceRouter().Handler(msg)(cctx, msg)
+			return err
+		})
+	}
+	k.SetProposalOracle(cctx, &types.ProposalOracle{Oracles: []string{a.addr.String()}})
+	if r := bond(a); r != "ok" {
+		h.out.Stats.Extra["genesis_reuse"] = "bond A: " + r
+		return
+	}
+	os := &types.OracleSet{Nonce: 777001, Height: 3, Members: []types.BridgeValidator{{Power: 100, ExternalAddress: a.ext}}}
+	k.StoreOracleSet(cctx, os)
+	cp, err := os.GetCheckpoint(c.gid)
+	if err != nil {
+		return
+	}
+	conf := &types.MsgOracleSetConfirm{Nonce: os.Nonce, BridgerAddress: a.bridger.String(), ExternalAddress: a.ext, Signature: hex.EncodeToString(c.sign(cp, keyA)), ChainName: name}
+	if r := hx.Try(func() error { _, err := s.App.MsgServiceRouter().Handler(conf)(cctx, conf); return err }); r != "ok" {
+		h.out.Stats.Extra["genesis_reuse"] = "confirm A: " + r
+		return
+	}
+	// A is taken out of the oracle set by governance (UpdateChainOracles: offline + undelegated) …
+	k.SetProposalOracle(cctx, &types.ProposalOracle{Oracles: []string{}})
+	rec, _ := k.GetOracle(cctx, a.addr)
+	rec.Online = false
+	k.SetOracle(cctx, rec)
+	// … its delegation is released (the staking unbonding period is not simulated: the delegation record is what the
+	// handler looks at, an unbonding entry must not exist)
+	un := &types.MsgUnbondedOracle{OracleAddress: a.addr.String(), ChainName: name}
+	if r := hx.Try(func() error { _, err := s.App.MsgServiceRouter().Handler(un)(cctx, un); return err }); r != "ok" {
+		h.out.Stats.Extra["genesis_reuse"] = "unbond A: " + r
+		h.out.Count("genesis-reuse:unbond-failed")
+		return
+	}
+	keyB, _ := crypto.GenerateKey()
+	b := &oracleT{id: 1, addr: helpers.GenAccAddress(), bridger: a.bridger, key: keyB}
+	b.ext = c.addrStr(crypto.PubkeyToAddress(keyB.PublicKey).Bytes())
+	k.SetProposalOracle(cctx, &types.ProposalOracle{Oracles: []string{b.addr.String()}})
+	if r := bond(b); r != "ok" {
+		h.out.Stats.Extra["genesis_reuse"] = "bond B: " + r
+		return
+	}
+	c.oracles = []*oracleT{a, b}
+	h.out.Count("genesis-reuse:history-built")
+	h.genesisRoundTrip(c)
 }
 
 // ---- set-up ------------------------------------------------------------------------------------------------------
@@ -1910,6 +2152,8 @@ func TestC12(t *testing.T) {
 	out.Stats.Extra["solidity_sites_loaded"] = len(sites)
 	solPrefix := loadSolPrefix()
 	out.Stats.Extra["solidity_verifySig_prefixes_loaded"] = len(solPrefix)
+	solVerify := loadSolVerify()
+	out.Stats.Extra["solidity_verifySig_loaded"] = len(solVerify)
 	nSeq := hx.N(40, 300)
 	big_ := 40
 	nObj, nConf := 8, 90
@@ -1919,7 +2163,7 @@ func TestC12(t *testing.T) {
 	for q := 0; q < nSeq; q++ {
 		out.Reset()
 		cctx, _ := s.Ctx.CacheContext()
-		h := &hCtx{t: t, s: s, out: out, rng: rng, ctx: cctx, big_: big_, sites: sites, solPrefix: solPrefix}
+		h := &hCtx{t: t, s: s, out: out, rng: rng, ctx: cctx, big_: big_, sites: sites, solPrefix: solPrefix, solVerify: solVerify}
 		var chains []*chainT
 		chains = append(chains, h.setupChain("eth", s.App.EthKeeper, 1+rng.Intn(4), chains))
 		chains = append(chains, h.setupChain("bsc", s.App.BscKeeper, 1+rng.Intn(3), chains))
@@ -1991,8 +2235,18 @@ func TestC12(t *testing.T) {
 		for _, c := range chains {
 			h.verifyAll(c)
 		}
+		if q%4 == 0 {
+			for _, c := range chains {
+				h.genesisRoundTrip(c)
+			}
+		}
 	}
 	out.Reset()
 	h := &hCtx{t: t, s: s, out: out, rng: rng, ctx: s.Ctx}
+	if os.Getenv("VERIF_C12_GENESIS_REUSE") == "1" {
+		h.genesisBridgerReuse()
+		out.Reset()
+		h.ctx = s.Ctx
+	}
 	h.realTxs()
 }
